@@ -43,11 +43,10 @@ theorem nameOk_noSp (s : Line) (h : nameOk s = true) : NoSp s := by
 theorem stripClose_snoc (c : Char) (s : Line) : stripClose c (s ++ [c]) = some s := by
   simp [stripClose]
 
-theorem classify_number (n : Nat) : classify ("DT".toList ++ natRepr n) = some (.number n) := by
-  show classify ('D' :: 'T' :: natRepr n) = _
+theorem classify_number (n : Nat) : classify ('D' :: 'T' :: natRepr n) = some (.number n) := by
   simp [classify, digitsVal_natRepr]
 
-theorem classify_name (s : Line) (h : nameOk s = true) : classify ('<' :: s ++ ['>']) = some (.name s) := by
+theorem classify_name (s : Line) (h : nameOk s = true) : classify ('<' :: (s ++ ['>'])) = some (.name s) := by
   have hf : Option.filter nameOk (some s) = some s := by simp [Option.filter, h]
   simp [classify, stripClose_snoc, hf]
 
@@ -75,7 +74,7 @@ theorem classify_regInt (n : Nat) : classify (natRepr n) = some (.regInt n) := b
       · cases h2
     · simp [hv]
 
-theorem classify_regExt (s : Line) (h : extOk s = true) : classify ('(' :: s ++ [')']) = some (.regExt s) := by
+theorem classify_regExt (s : Line) (h : extOk s = true) : classify ('(' :: (s ++ [')'])) = some (.regExt s) := by
   have hv : digitsVal ('(' :: (s ++ [')'])) = none := digitsVal_nondigit _ _ (by decide)
   have hf : Option.filter extOk (some s) = some s := by simp [Option.filter, h]
   simp [classify, stripClose_snoc, hf, hv]
@@ -88,5 +87,356 @@ theorem splitWs_tokens (ts : List Line) (h : ∀ t ∈ ts, NoSp t ∧ t ≠ []) 
     have ht := h t (by simp)
     simp only [List.flatMap_cons, List.append_assoc, List.singleton_append]
     rw [splitWs_token_sp t ht.1 ht.2, ih (fun u hu => h u (by simp [hu]))]
+
+/-! ## trailing blanks do not matter to `split()` -/
+
+theorem splitAux_spaces (b : Nat) (cur : Line) : splitAux cur (List.replicate b ' ') = splitAux cur [] := by
+  induction b generalizing cur with
+  | zero => rfl
+  | succ b ih =>
+    simp only [List.replicate_succ, splitAux, isSp_space, if_true]
+    cases hc : cur.isEmpty with
+    | true =>
+      have : cur = [] := by simpa using hc
+      subst this
+      simpa [splitAux] using ih []
+    | false => simp [ih [], splitAux, hc]
+
+theorem splitAux_trailing (s : Line) (b : Nat) (cur : Line) :
+    splitAux cur (s ++ List.replicate b ' ') = splitAux cur s := by
+  induction s generalizing cur with
+  | nil => simpa using splitAux_spaces b cur
+  | cons c s ih =>
+    simp only [List.cons_append, splitAux]
+    split
+    · split <;> simp [ih]
+    · exact ih _
+
+theorem all_sp_replicate (l : Line) (h : ∀ c ∈ l, isSp c = true) : l = List.replicate l.length ' ' := by
+  induction l with
+  | nil => rfl
+  | cons c l ih =>
+    have hc : c = ' ' := by simpa [isSp] using h c (by simp)
+    subst hc
+    rw [List.length_cons, List.replicate_succ, ← ih (fun d hd => h d (by simp [hd]))]
+
+theorem mem_takeWhile_sat (l : Line) (c : Char) (h : c ∈ l.takeWhile isSp) : isSp c = true := by
+  induction l with
+  | nil => simp at h
+  | cons d l ih =>
+    by_cases hd : isSp d = true
+    · simp only [List.takeWhile_cons, hd, if_true] at h
+      rcases List.mem_cons.mp h with rfl | h
+      · exact hd
+      · exact ih h
+    · simp [List.takeWhile_cons, hd] at h
+
+theorem stripR_decomp (s : Line) : ∃ b, s = stripR s ++ List.replicate b ' ' := by
+  refine ⟨(s.reverse.takeWhile isSp).length, ?_⟩
+  have h1 : s.reverse = s.reverse.takeWhile isSp ++ s.reverse.dropWhile isSp :=
+    (List.takeWhile_append_dropWhile (p := isSp) (l := s.reverse)).symm
+  have h2 : s.reverse.takeWhile isSp = List.replicate (s.reverse.takeWhile isSp).length ' ' :=
+    all_sp_replicate _ (fun c hc => mem_takeWhile_sat _ c hc)
+  have h3 : s = (s.reverse.dropWhile isSp).reverse ++ (s.reverse.takeWhile isSp).reverse := by
+    have := congrArg List.reverse h1
+    rw [List.reverse_reverse, List.reverse_append] at this
+    exact this
+  unfold stripR
+  rw [h2, List.reverse_replicate] at h3
+  simpa using h3
+
+/-- `split()` of `line.strip()[1:]` and of `line[1:]` agree for a line that starts with a
+non-blank. -/
+theorem splitWs_strip_drop1 (l : Line) (hl : TightL l) (hne : l ≠ []) :
+    splitWs ((strip l).drop 1) = splitWs (l.drop 1) := by
+  unfold strip stripL
+  rw [dropWhile_tightL hl]
+  obtain ⟨b, hb⟩ := stripR_decomp l
+  cases hs : stripR l with
+  | nil =>
+    exfalso
+    rw [hs] at hb
+    cases l with
+    | nil => exact hne rfl
+    | cons c t =>
+      have h1 := hl c t rfl
+      have : c ∈ List.replicate b ' ' := by
+        have : c ∈ c :: t := by simp
+        rw [hb] at this; simpa using this
+      have : c = ' ' := (List.mem_replicate.mp this).2
+      subst this
+      exact absurd h1 (by decide)
+  | cons c t =>
+    rw [hs] at hb
+    have : l.drop 1 = t ++ List.replicate b ' ' := by rw [hb]; simp
+    rw [this]
+    simp only [List.drop_succ_cons, List.drop_zero, splitWs]
+    exact (splitAux_trailing t b []).symm
+
+/-! ## the tokens of a key line -/
+
+def optTok {α : Type} (f : α → Line) : Option α → List Line
+  | some a => [f a]
+  | none => []
+
+def Key.tokens (k : Key) : List Line :=
+  optTok (fun n => "DT".toList ++ natRepr n) k.number ++ optTok (fun s => '<' :: s ++ ['>']) k.name
+    ++ optTok natRepr k.regInt ++ optTok (fun s => '(' :: s ++ [')']) k.regExt
+
+theorem Key.serialize_eq (k : Key) : k.serialize = '>' :: ' ' :: k.tokens.flatMap (· ++ [' ']) := by
+  obtain ⟨number, name, regInt, regExt⟩ := k
+  cases number <;> cases name <;> cases regInt <;> cases regExt <;>
+    simp [Key.serialize, Key.tokens, optTok, List.flatMap_cons]
+
+theorem noSp_cons {c : Char} {s : Line} (hc : isSp c = false) (hs : NoSp s) : NoSp (c :: s) := by
+  intro d hd
+  rcases List.mem_cons.mp hd with rfl | hd
+  · exact hc
+  · exact hs d hd
+
+theorem noSp_single {c : Char} (hc : isSp c = false) : NoSp [c] := noSp_cons hc (fun _ h => by simp at h)
+
+theorem Key.tokens_ok (k : Key) (hn : ∀ s, k.name = some s → nameOk s = true)
+    (he : ∀ s, k.regExt = some s → extOk s = true) : ∀ t ∈ k.tokens, NoSp t ∧ t ≠ [] := by
+  obtain ⟨number, name, regInt, regExt⟩ := k
+  intro t ht
+  simp only [Key.tokens, List.mem_append] at ht
+  rcases ht with ((ht | ht) | ht) | ht
+  · cases number with
+    | none => simp [optTok] at ht
+    | some n =>
+      simp [optTok] at ht; subst ht
+      exact ⟨noSp_cons (by decide) (noSp_cons (by decide) (natRepr_noSp n)), by simp⟩
+  · cases name with
+    | none => simp [optTok] at ht
+    | some s =>
+      simp [optTok] at ht; subst ht
+      exact ⟨noSp_cons (by decide) ((nameOk_noSp s (hn s rfl)).append (noSp_single (by decide))), by simp⟩
+  · cases regInt with
+    | none => simp [optTok] at ht
+    | some n =>
+      simp [optTok] at ht; subst ht
+      exact ⟨natRepr_noSp n, natRepr_ne_nil n⟩
+  · cases regExt with
+    | none => simp [optTok] at ht
+    | some s =>
+      simp [optTok] at ht; subst ht
+      exact ⟨noSp_cons (by decide) ((extOk_noSp s (he s rfl)).append (noSp_single (by decide))), by simp⟩
+
+theorem addComps_tokens (number : Option Nat) (name : Option Line) (regInt : Option Nat) (regExt : Option Line)
+    (hn : ∀ s, name = some s → nameOk s = true) (he : ∀ s, regExt = some s → extOk s = true) :
+    addComps ⟨none, none, none, none⟩ (Key.tokens ⟨number, name, regInt, regExt⟩)
+      = .ok ⟨number, name, regInt, regExt⟩ := by
+  cases number <;> cases name <;> cases regInt <;> cases regExt <;>
+    simp_all [Key.tokens, optTok, addComps, addComp, classify_number, classify_regInt, classify_name,
+      classify_regExt, bind, Except.bind]
+
+/-! ## key round trip -/
+
+/-- The key grammar: a field number or a name is present, the name matches `[a-zA-Z0-9][\w.]*`,
+the external registry part matches `[\w.-]*` (numbers are naturals by construction). -/
+def ValidKey (k : Key) : Prop :=
+  k.valid = true ∧ (∀ s, k.regExt = some s → extOk s = true)
+
+instance (k : Key) : Decidable (ValidKey k) := by
+  unfold ValidKey
+  cases k.regExt with
+  | none => exact decidable_of_iff (k.valid = true) (by simp)
+  | some s => exact decidable_of_iff (k.valid = true ∧ extOk s = true) (by simp)
+
+theorem ValidKey.name_ok {k : Key} (h : ValidKey k) : ∀ s, k.name = some s → nameOk s = true := by
+  intro s hs
+  have := h.1
+  simp only [Key.valid, hs, Bool.and_eq_true] at this
+  exact this.2
+
+theorem key_roundtrip (k : Key) (hk : ValidKey k) :
+    Key.deserialize k.serialize = .ok k ∧ Key.deserialize (strip k.serialize) = .ok k := by
+  have hn := hk.name_ok
+  have he := hk.2
+  have hsplit : splitWs (k.serialize.drop 1) = k.tokens := by
+    rw [Key.serialize_eq]
+    simp only [List.drop_succ_cons, List.drop_zero]
+    rw [splitWs_sp, splitWs_tokens _ (Key.tokens_ok k hn he)]
+  have hadd : addComps ⟨none, none, none, none⟩ k.tokens = .ok k := by
+    obtain ⟨number, name, regInt, regExt⟩ := k
+    exact addComps_tokens number name regInt regExt hn he
+  have hfin : (k.number.isNone && k.name.isNone) = false := by
+    have := hk.1
+    obtain ⟨number, name, regInt, regExt⟩ := k
+    cases number <;> cases name <;> simp_all [Key.valid]
+  have main : Key.deserialize k.serialize = .ok k := by
+    unfold Key.deserialize
+    rw [hsplit, hadd]
+    simp [bind, Except.bind, hfin]
+  refine ⟨main, ?_⟩
+  have htl : TightL k.serialize := by
+    rw [Key.serialize_eq]; intro c t h; cases h; decide
+  have hne : k.serialize ≠ [] := by rw [Key.serialize_eq]; simp
+  unfold Key.deserialize
+  rw [splitWs_strip_drop1 _ htl hne, hsplit, hadd]
+  simp [bind, Except.bind, hfin]
+
+
+/-! ## insertion-ordered dicts -/
+
+theorem dictSet_fresh {κ ν : Type} [DecidableEq κ] (k : κ) (v : ν) (d : List (κ × ν))
+    (h : k ∉ d.map (·.1)) : dictSet k v d = d ++ [(k, v)] := by
+  induction d with
+  | nil => rfl
+  | cons p d ih =>
+    obtain ⟨k', v'⟩ := p
+    simp only [List.map_cons, List.mem_cons, not_or] at h
+    have hk : ¬ k' = k := fun e => h.1 e.symm
+    simp [dictSet, hk, ih h.2]
+
+theorem foldl_dictSet_fresh {κ ν : Type} [DecidableEq κ] (l acc : List (κ × ν))
+    (h : ((acc ++ l).map (·.1)).Nodup) :
+    l.foldl (fun d r => dictSet r.1 r.2 d) acc = acc ++ l := by
+  induction l generalizing acc with
+  | nil => simp
+  | cons r l ih =>
+    have hfresh : r.1 ∉ acc.map (·.1) := by
+      rw [List.map_append, List.nodup_append] at h
+      intro hm
+      exact h.2.2 _ hm _ (by simp) rfl
+    simp only [List.foldl_cons]
+    rw [dictSet_fresh r.1 r.2 acc hfresh]
+    have : (acc ++ [(r.1, r.2)]) ++ l = acc ++ r :: l := by simp
+    rw [ih (acc ++ [(r.1, r.2)]) (by rw [this]; exact h), this]
+
+/-! ## records -/
+
+/-- `lines[start].strip()` of a record chunk (an empty chunk is named by the delimiter line). -/
+def recName : List Line → Line
+  | [] => strip delim
+  | f :: _ => strip f
+
+theorem splitLoop_record (r : List Line) (hr : ∀ l ∈ r, startsWith delim l = false) (cur rest : List Line) :
+    splitLoop cur (r ++ delim :: rest) = (recName (cur.reverse ++ r), cur.reverse ++ r) :: splitLoop [] rest := by
+  induction r generalizing cur with
+  | nil =>
+    have hd : startsWith delim delim = true := by decide
+    simp only [List.nil_append, splitLoop, hd, if_true, List.append_nil]
+    cases cur.reverse <;> rfl
+  | cons l r ih =>
+    have hl := hr l (by simp)
+    simp only [List.cons_append, splitLoop, hl, Bool.false_eq_true, if_false]
+    rw [ih (fun x hx => hr x (by simp [hx]))]
+    simp
+
+theorem splitLoop_join (recs : List (List Line)) (h : ∀ r ∈ recs, ∀ l ∈ r, startsWith delim l = false) :
+    splitLoop [] (joinRecords recs) = recs.map fun r => (recName r, r) := by
+  induction recs with
+  | nil => rfl
+  | cons r rs ih =>
+    have : joinRecords (r :: rs) = r ++ delim :: joinRecords rs := by simp [joinRecords]
+    rw [this, splitLoop_record r (h r (by simp)), ih (fun x hx => h x (by simp [hx]))]
+    simp
+
+/-! ## metadata -/
+
+/-- A value line survives `strip()`, is not skipped and is not taken for a key. -/
+def ValueLineOk (l : Line) : Prop := l ≠ [] ∧ TightL l ∧ TightR l ∧ startsWith ['>'] l = false
+
+theorem mdLoop_values (k : Key) (ls : List Line) (hl : ∀ l ∈ ls, ValueLineOk l) (acc : Metadata)
+    (vr : List Line) (rest : List Line) :
+    mdLoop acc (some (k, some vr)) (ls ++ rest) = mdLoop acc (some (k, some (ls.reverse ++ vr))) rest := by
+  induction ls generalizing vr with
+  | nil => rfl
+  | cons l ls ih =>
+    obtain ⟨hne, htl, htr, hgt⟩ := hl l (by simp)
+    have hs : strip l = l := strip_tight l htl htr
+    have he : l.isEmpty = false := by cases l with | nil => exact absurd rfl hne | cons _ _ => rfl
+    simp only [List.cons_append, mdLoop, hs, he, hgt, Bool.false_eq_true, if_false]
+    rw [ih (fun x hx => hl x (by simp [hx]))]
+    simp
+
+theorem strip_head (c : Char) (t : Line) (hc : isSp c = false) : ∃ t', strip (c :: t) = c :: t' := by
+  have htl : TightL (c :: t) := by intro d u h; cases h; exact hc
+  unfold strip stripL
+  rw [dropWhile_tightL htl]
+  obtain ⟨b, hb⟩ := stripR_decomp (c :: t)
+  cases hs : stripR (c :: t) with
+  | nil =>
+    exfalso
+    rw [hs] at hb
+    have : c ∈ List.replicate b ' ' := by
+      have h0 : c ∈ c :: t := by simp
+      rw [hb] at h0; simpa using h0
+    have : c = ' ' := (List.mem_replicate.mp this).2
+    subst this
+    exact absurd hc (by decide)
+  | cons d u =>
+    rw [hs] at hb
+    have : c = d := by
+      have := congrArg List.head? hb
+      simpa using this
+    subst this
+    exact ⟨u, rfl⟩
+
+def pend : Option (Key × List Line) → Option (Key × Option (List Line))
+  | none => none
+  | some (k, v) => some (k, some v.reverse)
+
+def MdOk (md : Metadata) : Prop := ∀ kv ∈ md, ValidKey kv.1 ∧ kv.2 ≠ [] ∧ ∀ l ∈ kv.2, ValueLineOk l
+
+theorem flush_pend (acc : Metadata) (p : Option (Key × List Line))
+    (h : ((acc ++ p.toList).map (·.1)).Nodup) : flush acc (pend p) = .ok (acc ++ p.toList) := by
+  cases p with
+  | none => simp [pend, flush]
+  | some kv =>
+    obtain ⟨k, v⟩ := kv
+    have hf : k ∉ acc.map (·.1) := by
+      simp only [Option.toList, List.map_append, List.nodup_append] at h
+      intro hm
+      exact h.2.2 _ hm _ (by simp) rfl
+    simp [pend, flush, dictSet_fresh k v acc hf]
+
+theorem mdLoop_entries (md : Metadata) (hmd : MdOk md) (acc : Metadata) (p : Option (Key × List Line))
+    (hnd : ((acc ++ p.toList ++ md).map (·.1)).Nodup) :
+    mdLoop acc (pend p) (Metadata.serialize md) = .ok (acc ++ p.toList ++ md) := by
+  induction md generalizing acc p with
+  | nil =>
+    have : Metadata.serialize [] = [] := rfl
+    rw [this]
+    simp only [mdLoop, List.append_nil] at hnd ⊢
+    exact flush_pend acc p hnd
+  | cons kv md ih =>
+    obtain ⟨hk, hvne, hvl⟩ := hmd kv (by simp)
+    have hser : Metadata.serialize (kv :: md) = kv.1.serialize :: (kv.2 ++ [] :: Metadata.serialize md) := by
+      simp [Metadata.serialize]
+    rw [hser]
+    -- the key line
+    obtain ⟨t', ht'⟩ : ∃ t', strip kv.1.serialize = '>' :: t' := by
+      rw [Key.serialize_eq]; exact strip_head '>' _ (by decide)
+    have hkey : Key.deserialize ('>' :: t') = .ok kv.1 := by rw [← ht']; exact (key_roundtrip kv.1 hk).2
+    have hnd1 : ((acc ++ p.toList).map (·.1)).Nodup := by
+      rw [List.map_append] at hnd
+      exact (List.nodup_append.mp hnd).1
+    have hst : startsWith ['>'] ('>' :: t') = true := by simp [startsWith]
+    simp only [mdLoop, ht', List.isEmpty_cons, Bool.false_eq_true, if_false, hst, if_true,
+      flush_pend acc p hnd1, hkey, bind, Except.bind]
+    -- the value lines
+    cases hv : kv.2 with
+    | nil => exact absurd hv hvne
+    | cons l1 ls1 =>
+      rw [hv] at hvl
+      obtain ⟨hne, htl, htr, hgt⟩ := hvl l1 (by simp)
+      have hs : strip l1 = l1 := strip_tight l1 htl htr
+      have he : l1.isEmpty = false := by cases l1 with | nil => exact absurd rfl hne | cons _ _ => rfl
+      simp only [List.cons_append, mdLoop, hs, he, hgt, Bool.false_eq_true, if_false]
+      rw [mdLoop_values kv.1 ls1 (fun x hx => hvl x (by simp [hx]))]
+      -- the blank line after the value
+      have hblank : strip ([] : Line) = [] := by decide
+      simp only [mdLoop, hblank, List.isEmpty_nil, if_true]
+      have hp : pend (some kv) = some (kv.1, some (ls1.reverse ++ [l1])) := by
+        obtain ⟨k, v⟩ := kv
+        simp only at hv
+        subst hv
+        simp [pend]
+      rw [← hp]
+      have hassoc : acc ++ p.toList ++ (some kv).toList ++ md = acc ++ p.toList ++ kv :: md := by simp
+      rw [ih (fun x hx => hmd x (by simp [hx])) (acc ++ p.toList) (some kv) (by rw [hassoc]; exact hnd), hassoc]
 
 end BiotiteModel.C18
